@@ -41,6 +41,9 @@ struct Sc {
     workers: u32,
     pool_size: u32,
     jitter_us: u64,
+    /// pool db2 in session mode; its clients open a connection per transaction, so every
+    /// transaction is the first statement of a client that holds no server yet
+    session_db2: bool,
 }
 
 fn scenario(sc: &Sc, rep: &Report) -> Result<(), String> {
@@ -51,9 +54,12 @@ fn scenario(sc: &Sc, rep: &Report) -> Result<(), String> {
         "db2",
         USER,
         PASS,
-        sc.pool_size,
+        if sc.session_db2 { sc.clients as u32 + 2 } else { sc.pool_size },
         vec![cell.server(m2, "primary")],
     ));
+    if sc.session_db2 {
+        cfg.pools[1].set("pool_mode", "\"session\"");
+    }
     cfg.gset("worker_threads", &sc.workers.to_string());
     cfg.gset("connect_timeout", "5000");
     let mut so = StartOpts::default();
@@ -69,6 +75,7 @@ fn scenario(sc: &Sc, rep: &Report) -> Result<(), String> {
         let addr = addr.clone();
         let stop = stop.clone();
         let seed = sc.seed ^ (ci as u64 + 7) * 0x51_7c_c1;
+        let session_db2 = sc.session_db2;
         hs.push(std::thread::spawn(move || -> Vec<Req> {
             let mut rng = Rng::new(seed);
             let cid = format!("c{}", ci);
@@ -79,8 +86,16 @@ fn scenario(sc: &Sc, rep: &Report) -> Result<(), String> {
                 Err(_) => return out,
             };
             let mut n = 0;
+            let reconnect_each = session_db2 && pool == "db2";
             while !stop.load(Ordering::SeqCst) {
                 n += 1;
+                if reconnect_each && n > 1 {
+                    conn.terminate();
+                    conn = match Conn::connect(&addr, &StartupOpts::new(USER, pool, PASS).app(&cid)) {
+                        Ok(c) => c,
+                        Err(_) => return out,
+                    };
+                }
                 let in_block = rng.chance(1, 3);
                 let mut steps = vec![];
                 if in_block {
@@ -250,7 +265,7 @@ pub fn run(tier: &str) -> i32 {
         "C16",
         tier,
         "exploration",
-        "scenario = 4-64 looping clients (autocommit and BEGIN..COMMIT) on two pools + an admin connection toggling PAUSE/RESUME (global / per pool) at 0-40 ms intervals, worker_threads 2-8, jitter inside wait_paused; oracle = happens-before on one monotonic clock: sent after PAUSE reply => must not reach a server before RESUME is issued; every request completes after the final RESUME; no request fails; distinct = (clients, held requests, cycles)",
+        "scenario = 4-64 looping clients (autocommit and BEGIN..COMMIT) on two pools (the second one in session mode, one connection per transaction, in a third of the scenarios) + an admin connection toggling PAUSE/RESUME (global / per pool) at 0-40 ms intervals, worker_threads 2-8, jitter inside wait_paused; oracle = happens-before on one monotonic clock: sent after PAUSE reply => must not reach a server before RESUME is issued; every request completes after the final RESUME; no request fails; distinct = (clients, held requests, cycles)",
     );
     rep.assume("a request is judged 'held' only if its first byte was written after the PAUSE reply had been read by the admin connection");
     let thorough = rep.thorough();
@@ -264,6 +279,7 @@ pub fn run(tier: &str) -> i32 {
             workers: *rng.pick(&[2, 4, 8]),
             pool_size: rng.range(1, 4) as u32,
             jitter_us: *rng.pick(&[0, 300, 2000]),
+            session_db2: rng.chance(1, 3),
         })
         .collect();
     run_parallel(n, workers(), |i| {
